@@ -335,6 +335,9 @@ func (x *runner) variantCases(ca *authority) {
 		case 1:
 			pos := r.Intn(len(m))
 			m = append(m[:pos], m[pos+1:]...)
+		case 2, 3:
+			m[r.Intn(len(m))] ^= byte(1 + r.Intn(255))
+			m[r.Intn(len(m))] ^= byte(1 << r.Intn(8))
 		default:
 			m[r.Intn(len(m))] ^= byte(1 + r.Intn(255))
 		}
